@@ -24,6 +24,13 @@ def is_int_type(t: str) -> bool:
     return t.replace("const ", "").strip() in INT_TYPES
 
 
+def strip_qual(t: str) -> str:
+    """C type without cv-qualifiers (`const float *` -> `float *`)."""
+    return " ".join(w for w in t.replace("*", " * ").split()
+                    if w not in ("const", "volatile", "restrict", "__restrict")
+                    ).replace(" *", "*").replace("* ", "*")
+
+
 def is_ptr_type(t: str) -> bool:
     return t.strip().endswith("*")
 
@@ -444,7 +451,11 @@ class CInterp:
             lo = la if self.leq(la, lb) else (lb if self.leq(lb, la) else None)
         if ha is not None and hb is not None:
             hi = ha if self.leq(hb, ha) else (hb if self.leq(ha, hb) else None)
-        return self.fresh(f"phi:{hint}", lo, hi, origin="join")
+        s = self.fresh(f"phi:{hint}", lo, hi, origin="join")
+        if not hasattr(self, "joins"):
+            self.joins = {}
+        self.joins[list(s.symbols())[0]] = (a, b)
+        return s
 
     # ---- loops
     def do_for(self, st: X):
